@@ -170,7 +170,7 @@ Lemma istep_local x W k c r po e :
   istep (mkSt W po e) x = wrapst W k po e (istep (mkSt c [] 0) (irestrict x)).
 Proof.
   intros HP HO B H.
-  destruct x as [vc|tc|un p xs|p os|p v|ins p v|p]; cbn [ipath] in HP; cbn [istep irestrict].
+  destruct x as [vc|tc|un p xs|p os|p v|ins p v|p]; cbn [ipath] in HP; unfold irestrict; cbn [istep imap].
   - (* values_changed *)
     unfold vc_step, current_at. cbn [vc_path vc_old vc_new root]. rewrite HP. cbn [tl].
     rewrite (resolve_box W k r c H). destruct (resolve c r) as [cur|].
@@ -219,6 +219,220 @@ Proof.
     pose proof (local_upd_step (fun _ => Some (VList (list_insert xs (Z.to_nat z) (VAtom ANone)))) W k c op po e I B H) as U.
     unfold upd_step in U. cbn [root] in U. rewrite U. apply A.
   - subst p. cbn [tl]. apply (local_upd_step _ W k c r po e I B H).
+Qed.
+
+
+(* ------------------------------------------------------------------ *)
+(* simulation of the run on a container by the runs on its children    *)
+(* ------------------------------------------------------------------ *)
+Definition fkey (x : item) : option atom :=
+  match ipath x with PKey k :: _ => Some k | _ => None end.
+Definition sub (k : atom) (P : list path) : list path :=
+  flat_map (fun p => match p with PKey k' :: r => if atom_eqb k' k then [r] else [] | _ => [] end) P.
+
+Lemma sub_app k P Q : sub k (P ++ Q) = sub k P ++ sub k Q.
+Proof. unfold sub. apply flat_map_app. Qed.
+Lemma sub_cons_same k P : sub k (map (cons (PKey k)) P) = P.
+Proof. unfold sub. induction P as [|p P IH]; cbn; [reflexivity|]. rewrite atom_eqb_refl. cbn. rewrite IH. reflexivity. Qed.
+Lemma sub_cons_other k k' P : k' <> k -> sub k (map (cons (PKey k')) P) = [].
+Proof.
+  intros N. unfold sub. induction P as [|p P IH]; cbn; [reflexivity|].
+  destruct (atom_eqb k' k) eqn:E; [apply atom_eqb_eq in E; congruence|]. exact IH.
+Qed.
+
+(* the keys K address pairwise distinct existing slots of W *)
+Definition sepK (K : list atom) (W : value) : Prop :=
+  match W with
+  | VList xs => forall k, In k K -> exists i, k = ik i /\ i < length xs
+  | VDict kvs => (forall k, In k K -> mem_atom k (map fst kvs) = true) /\
+                 (forall k k', In k K -> In k' K -> k <> k' -> py_eq k k' = false)
+  | _ => False
+  end.
+
+Lemma sepK_box K W : sepK K W -> box W = true.
+Proof. destruct W; cbn; intros H; try contradiction; reflexivity. Qed.
+
+Lemma sepK_get K W k : sepK K W -> In k K -> exists c, get_item W k = Some c.
+Proof.
+  destruct W as [a|xs|xs|kvs|xs|xs]; cbn [sepK]; try contradiction; intros H Hk.
+  - destruct (H k Hk) as (i & -> & Hi). rewrite get_item_list_ik.
+    destruct (nth_error xs i) eqn:E; [eexists; reflexivity|]. apply nth_error_None in E. lia.
+  - destruct H as [H _]. specialize (H k Hk). cbn [get_item].
+    destruct (assoc k kvs) eqn:E; [eexists; reflexivity|]. apply assoc_None in E. congruence.
+Qed.
+
+Lemma ik_inj i j : ik i = ik j -> i = j.
+Proof. unfold ik. intros H. inversion H. lia. Qed.
+
+Lemma sepK_set K W k v W' : sepK K W -> In k K -> set_item W k v = Some W' ->
+  sepK K W' /\ get_item W' k = Some v /\ (forall k', In k' K -> k' <> k -> get_item W' k' = get_item W k').
+Proof.
+  destruct W as [a|xs|xs|kvs|xs|xs]; cbn [sepK]; try contradiction; intros H Hk HS.
+  - destruct (H k Hk) as (i & -> & Hi). rewrite set_item_list_ik in HS by exact Hi. inversion HS; subst W'.
+    split; [|split].
+    + cbn [sepK]. intros k' Hk'. destruct (H k' Hk') as (j & -> & Hj). exists j. split; [reflexivity|].
+      rewrite repl_length by exact Hi. exact Hj.
+    + rewrite get_item_list_ik. apply repl_nth_same. exact Hi.
+    + intros k' Hk' N. destruct (H k' Hk') as (j & -> & Hj). rewrite !get_item_list_ik.
+      apply repl_nth_other; [exact Hi|]. intros E. subst j. congruence.
+  - destruct H as [H1 H2]. cbn in HS. inversion HS; subst W'. split; [|split].
+    + cbn [sepK]. split; [|exact H2]. intros k' Hk'. rewrite dict_set_keys by (apply H1; exact Hk). apply H1. exact Hk'.
+    + cbn. apply assoc_dict_set_same.
+    + intros k' Hk' N. cbn. apply assoc_dict_set_other. apply H2; try assumption. congruence.
+Qed.
+
+(* what a [set_item] at a key of K leaves alone *)
+Definition same_off (K : list atom) (W W' : value) : Prop :=
+  match W, W' with
+  | VList a, VList b => length a = length b /\ forall j, ~ In (ik j) K -> nth_error a j = nth_error b j
+  | VDict a, VDict b => map fst a = map fst b /\
+                        forall k', (forall k, In k K -> py_eq k k' = false) -> assoc k' a = assoc k' b
+  | _, _ => False
+  end.
+
+Lemma same_off_refl K W : box W = true -> same_off K W W.
+Proof. destruct W; try discriminate; intros _; cbn; split; intros; reflexivity. Qed.
+
+Lemma same_off_trans K W1 W2 W3 : same_off K W1 W2 -> same_off K W2 W3 -> same_off K W1 W3.
+Proof.
+  destruct W1, W2; cbn; try contradiction; destruct W3; cbn; try contradiction;
+    intros [A1 A2] [B1 B2]; (split; [congruence|]); intros j Hj; rewrite A2 by exact Hj; apply B2; exact Hj.
+Qed.
+
+Lemma same_off_set K W k v W' : sepK K W -> In k K -> set_item W k v = Some W' -> same_off K W W'.
+Proof.
+  destruct W as [a|xs|xs|kvs|xs|xs]; cbn [sepK]; try contradiction; intros H Hk HS.
+  - destruct (H k Hk) as (i & -> & Hi). rewrite set_item_list_ik in HS by exact Hi. inversion HS; subst W'.
+    cbn. split; [symmetry; apply repl_length; exact Hi|]. intros j Hj. symmetry. apply repl_nth_other; [exact Hi|].
+    intros E. subst j. contradiction.
+  - destruct H as [H1 H2]. cbn in HS. inversion HS; subst W'. cbn. split.
+    + symmetry. apply dict_set_keys. apply H1. exact Hk.
+    + intros k' Hk'. symmetry. apply assoc_dict_set_other. apply Hk'. exact Hk.
+Qed.
+
+Definition updS (S : atom -> st) (k : atom) (s' : st) : atom -> st :=
+  fun k' => if atom_eqb k' k then s' else S k'.
+
+Definition Rel (K : list atom) (s : st) (S : atom -> st) : Prop :=
+  sepK K (root s) /\
+  (forall k, In k K -> get_item (root s) k = Some (root (S k))) /\
+  (forall k, In k K -> sub k (post s) = post (S k)) /\
+  (forall p, In p (post s) -> exists k r, p = PKey k :: r /\ In k K) /\
+  ((forall k, In k K -> errs (S k) = 0) -> errs s = 0).
+
+Lemma rel_child_step K s S x k r :
+  Rel K s S -> ipath x = PKey k :: r -> In k K -> okr x r ->
+  Rel K (istep s x) (updS S k (istep (S k) (irestrict x))) /\
+  exists v, set_item (root s) k v = Some (root (istep s x)).
+Proof.
+  intros (HS & HG & HP & HQ & HE) Hp Hk Ho.
+  destruct s as [W po e]. cbn [root post errs] in *.
+  pose proof (sepK_box K W HS) as B. pose proof (HG k Hk) as Gk.
+  rewrite (istep_local x W k (root (S k)) r po e Hp Ho B Gk).
+  set (L := istep (mkSt (root (S k)) [] 0) (irestrict x)).
+  assert (EL : istep (S k) (irestrict x) = frame (post (S k)) (errs (S k)) L).
+  { destruct (S k) as [c1 po1 e1]. cbn [root post errs]. apply (framed_istep conv bidir). }
+  destruct (box_get_set W k (root (S k)) (root L) B Gk) as (W' & HW & _).
+  unfold wrapst. rewrite HW.
+  destruct (sepK_set K W k (root L) W' HS Hk HW) as (HS' & Gk' & Go').
+  split; [|exists (root L); exact HW].
+  unfold Rel, updS. cbn [root post errs]. repeat split.
+  - exact HS'.
+  - intros k' Hk'. destruct (atom_eqb k' k) eqn:E.
+    + apply atom_eqb_eq in E. subst k'. rewrite EL. cbn. exact Gk'.
+    + rewrite Go'; [apply HG; exact Hk'|exact Hk'|]. intros E2. subst k'. rewrite atom_eqb_refl in E. discriminate.
+  - intros k' Hk'. rewrite sub_app. destruct (atom_eqb k' k) eqn:E.
+    + apply atom_eqb_eq in E. subst k'. rewrite sub_cons_same, EL. cbn. rewrite HP by exact Hk. reflexivity.
+    + rewrite sub_cons_other, app_nil_r; [apply HP; exact Hk'|]. intros E2. subst k'. rewrite atom_eqb_refl in E. discriminate.
+  - intros p Hp'. apply in_app_or in Hp' as [Hp'|Hp']; [apply HQ; exact Hp'|].
+    apply in_map_iff in Hp' as (r' & <- & _). exists k, r'. split; [reflexivity|exact Hk].
+  - intros Hall.
+    assert (Z : errs (S k) = 0 /\ errs L = 0).
+    { specialize (Hall k Hk). rewrite atom_eqb_refl, EL in Hall. cbn in Hall. lia. }
+    destruct Z as [Z1 Z2]. rewrite Z2, Nat.add_0_r. apply HE. intros k' Hk'.
+    destruct (atom_eqb k' k) eqn:E.
+    + apply atom_eqb_eq in E. subst k'. exact Z1.
+    + specialize (Hall k' Hk'). rewrite E in Hall. exact Hall.
+Qed.
+
+
+Lemma Rel_ext K s S S' : (forall k, S k = S' k) -> Rel K s S -> Rel K s S'.
+Proof.
+  intros E (H1 & H2 & H3 & H4 & H5). unfold Rel. repeat split; try assumption.
+  - intros k Hk. rewrite <- E. apply H2. exact Hk.
+  - intros k Hk. rewrite <- E. apply H3. exact Hk.
+  - intros Hall. apply H5. intros k Hk. rewrite E. apply Hall. exact Hk.
+Qed.
+
+Section RelFold.
+Variable K : list atom.
+Variable Q : Type.
+Variable Inv : Q -> value -> Prop.
+Variable next : Q -> item -> option Q.
+Variable own : item -> bool.
+
+Definition cls (k : atom) (x : item) : bool :=
+  negb (own x) && match fkey x with Some k' => atom_eqb k' k | None => false end.
+Definition runS (S : atom -> st) (l : list item) : atom -> st :=
+  fun k => irun (map irestrict (filter (cls k) l)) (S k).
+
+Fixpoint own_run (q : Q) (l : list item) : option Q :=
+  match l with
+  | [] => Some q
+  | x :: r => if own x then match next q x with Some q' => own_run q' r | None => None end
+              else own_run q r
+  end.
+
+Hypothesis Hinv_set : forall q W k v W', Inv q W -> In k K -> set_item W k v = Some W' -> Inv q W'.
+Hypothesis Hown : forall q q' s S x, Rel K s S -> Inv q (root s) -> own x = true -> next q x = Some q' ->
+  Rel K (istep s x) S /\ Inv q' (root (istep s x)).
+
+Lemma rel_fold l : forall s S q qf,
+  (forall x, In x l -> own x = false -> exists k r, ipath x = PKey k :: r /\ In k K /\ okr x r) ->
+  Rel K s S -> Inv q (root s) -> own_run q l = Some qf ->
+  Rel K (irun l s) (runS S l) /\ Inv qf (root (irun l s)).
+Proof.
+  induction l as [|x l IH]; intros s S q qf Hch HR HI HO.
+  - cbn in HO. inversion HO; subst qf. split; [|exact HI]. eapply Rel_ext; [|exact HR]. intros k. reflexivity.
+  - cbn [own_run] in HO. cbn [irun fold_left]. change (fold_left istep l (istep s x)) with (irun l (istep s x)).
+    destruct (own x) eqn:Ox.
+    + destruct (next q x) as [q'|] eqn:Nx; [|discriminate].
+      destruct (Hown q q' s S x HR HI Ox Nx) as [HR' HI'].
+      destruct (IH (istep s x) S q' qf (fun y Hy => Hch y (or_intror Hy)) HR' HI' HO) as [A B].
+      split; [|exact B]. eapply Rel_ext; [|exact A].
+      intros k. unfold runS. cbn [filter]. unfold cls at 2. rewrite Ox. reflexivity.
+    + destruct (Hch x (or_introl eq_refl) Ox) as (k0 & r & Hp & Hk0 & Hokr).
+      destruct (rel_child_step K s S x k0 r HR Hp Hk0 Hokr) as [HR' (v & Hv)].
+      assert (HI' : Inv q (root (istep s x))) by (eapply Hinv_set; eassumption).
+      destruct (IH (istep s x) _ q qf (fun y Hy => Hch y (or_intror Hy)) HR' HI' HO) as [A B].
+      split; [|exact B]. eapply Rel_ext; [|exact A].
+      intros k. unfold runS, updS. cbn [filter]. unfold cls at 2. rewrite Ox. unfold fkey. rewrite Hp. cbn [negb andb].
+      destruct (atom_eqb k0 k) eqn:E.
+      * apply atom_eqb_eq in E. subst k0. rewrite atom_eqb_refl. reflexivity.
+      * destruct (atom_eqb k k0) eqn:E2; [apply atom_eqb_eq in E2; subst k0; rewrite atom_eqb_refl in E; discriminate|].
+        reflexivity.
+Qed.
+End RelFold.
+
+(* runs without own items *)
+Lemma rel_fold_children K l s S :
+  (forall x, In x l -> exists k r, ipath x = PKey k :: r /\ In k K /\ okr x r) ->
+  Rel K s S ->
+  Rel K (irun l s) (runS (fun _ => false) S l) /\ same_off K (root s) (root (irun l s)).
+Proof.
+  intros Hch HR.
+  assert (HO : own_run unit (fun _ _ => None) (fun _ => false) tt l = Some tt).
+  { clear. induction l as [|x l IH]; cbn; [reflexivity|exact IH]. }
+  assert (S0 : sepK K (root s)) by (destruct HR as [HS _]; exact HS).
+  pose proof (rel_fold K unit (fun _ W => sepK K W /\ same_off K (root s) W) (fun _ _ => None) (fun _ => false)) as RF.
+  destruct (RF) with (l := l) (s := s) (S := S) (q := tt) (qf := tt) as [A B]; try assumption.
+  - intros q W k v W' [HI1 HI2] Hk HS. split.
+    + eapply sepK_set; eassumption.
+    + eapply same_off_trans; [exact HI2|]. eapply same_off_set; eassumption.
+  - intros; discriminate.
+  - intros x Hx _. apply Hch. exact Hx.
+  - split; [exact S0|]. apply same_off_refl. eapply sepK_box; exact S0.
+  - split; [exact A|apply B].
 Qed.
 
 End Local.
